@@ -4,6 +4,8 @@
    Reading (DESIGN.md 9.1): the property speaks of key-producing mappings (the
    final output key is a non-modifier); for a mapping whose output ends in a
    modifier the code deliberately leaves other mappings' outputs alone (C05). *)
+From TM Require ModifierSpec SpecTables.
+From TMGen Require Modifiers.
 From TM Require Import Base Mapper Monitors Trace MapperInv MapperProps MapperNoAbs MapperStale.
 
 (* For EVERY accepted layout without absorbing mappings, EVERY history h (so:
@@ -34,6 +36,15 @@ Proof.
   intros a L h k m t H1 H2. apply no_stale_modifiers; [apply for_layout_ok_wf; exact H1 | apply has_absorbing_noabs; exact H2].
 Qed.
 Print Assumptions C04_no_stale_modifiers.
+
+(* "Modifier" in this property means one of the eight standard modifiers
+   (SpecTables.spec_modifier_keys: left/right Shift, Ctrl, Alt, Meta): the
+   classification the code uses (is_action_key, regenerated from /repo on every
+   run) is exactly that one.  (The theorems above hold for every classification.) *)
+Theorem C04_modifiers_are_the_standard_ones :
+  forall k : N, TMGen.Modifiers.is_action_key k = negb (SpecTables.spec_is_modifier k).
+Proof. exact ModifierSpec.is_action_key_is_spec. Qed.
+Print Assumptions C04_modifiers_are_the_standard_ones.
 
 (* Non-vacuity: A -> [LEFTSHIFT, B], C -> [LEFTCTRL, D], E -> [F], CAPSLOCK -> [LEFTALT]
    (a modifier-remapping).  With CAPSLOCK, A and C held (LEFTALT down, LEFTCTRL and D
